@@ -71,6 +71,14 @@ func c17WidePair(seed uint64) (*lib.Pair, []string) {
 }
 
 // c17Pair builds n new files mixing the series kinds so that every adjacency occurs.
+// alignedOr rounds a size up to a whole number of blocks in a third of the calls.
+func alignedOr(r *lib.Rng, sz int64) int64 {
+	if r.Intn(3) == 0 {
+		return (sz + lib.BS - 1) / lib.BS * lib.BS
+	}
+	return sz
+}
+
 func c17Pair(seed uint64, n int) (*lib.Pair, []string) {
 	r := lib.NewRng(lib.Mix(seed, 1717))
 	p := &lib.Pair{Old: lib.NewBuild(), New: lib.NewBuild(), Feat: map[string]bool{}}
@@ -88,7 +96,7 @@ func c17Pair(seed uint64, n int) (*lib.Pair, []string) {
 		name := fmt.Sprintf("f%02d.bin", i)
 		switch k {
 		case "patched": // rsync data + ranges; bsdiff in the optimized variant
-			sz := int64(r.Range(3, 9))*lib.BS + int64(r.Intn(5000))
+			sz := alignedOr(r, int64(r.Range(3, 9))*lib.BS+int64(r.Intn(5000)))
 			if sameSize > 0 {
 				sz = sameSize
 			}
@@ -100,12 +108,12 @@ func c17Pair(seed uint64, n int) (*lib.Pair, []string) {
 			}
 			p.Old.PutFile(name, d)
 			p.New.PutFile(name, nd)
-		case "copy": // whole-file op, same path
-			d := lib.RandomBytes(int64(r.Range(1, 3*lib.BS)), r.Uint64())
+		case "copy": // whole-file op, same path (a third of them exactly k blocks long)
+			d := lib.RandomBytes(alignedOr(r, int64(r.Range(1, 3*lib.BS))), r.Uint64())
 			p.Old.PutFile(name, d)
 			p.New.PutFile(name, d)
 		case "renamed": // whole-file op from another old path
-			d := lib.RandomBytes(int64(r.Range(1, 3*lib.BS)), r.Uint64())
+			d := lib.RandomBytes(alignedOr(r, int64(r.Range(1, 3*lib.BS))), r.Uint64())
 			p.Old.PutFile("old-"+name, d)
 			p.New.PutFile(name, d)
 		case "fresh":
